@@ -13,24 +13,74 @@
           - uniquified_check / unique_check            else VIOL class=non-unique-binder
           - "focused": the output reads as FsProg (the fs types admit only variables in argument
             positions, so a successful read IS the check)
-          - semantic equality before/after on the argument tuples: [sem_hook] below
+          - semantic equality before/after on the argument tuples: [sem_hook] below (Sem/CoreSem.v)
                                                        else VIOL class=order-of-effects | class=semantic-mismatch
      2. model = Rust for both stages (panic messages included)      else DIFF
    Tags after OK: nt (some fresh binder was created), the origin of the case (hand/file/gen and the
    mutation), pre / nopre, panic, size bucket of the output. *)
 From Coq Require Import List ZArith NArith String Ascii Bool.
-From SCC Require Import Base.Sexp Lang.SynUtil Lang.CoreSyn Model.Backend Model.Uniquify Model.Focus
+From SCC Require Import Base.Sexp Lang.SynUtil Lang.CoreSyn Sem.AxSem Sem.CoreSem Model.Backend Model.Uniquify Model.Focus
      Model.FocusCheck Model.RunBase Model.RunStages.
 Import ListNotations.
 Open Scope string_scope.
 
-(* ---------- HOOK (c): semantic comparison on the Core abstract machine ----------
-   To be connected to Sem/CoreSem.v (branch c02) when it exists:
-     run_core fuel p args  vs  run_core fuel' (embed_prog q) args   for each argument tuple,
-   answering  Some "class=order-of-effects …"  when the traces differ as sequences but agree as
-   multisets, Some "class=semantic-mismatch …" otherwise, None when equal (or out of fuel on both).
-   Until then: no verdict. *)
-Definition sem_hook (p : cprog) (q : fsprog) (args : sexp) : option string * string := (None, "nosem").
+(* ---------- (c) semantic comparison on the Core abstract machine (Sem/CoreSem.v) ----------
+   For each argument tuple:  run_core src_fuel p args  vs  run_fs tgt_fuel q args.
+   The focused program takes more machine transitions than the original (every lifted argument
+   costs a cut and a binding), hence the larger target fuel.  Verdict only when the source run
+   ends defined (OExit / OUndef) within the fuel:
+     equal observations                                  -> tag sem
+     same outcome, same prints as a multiset, other order -> class=order-of-effects
+     anything else                                       -> class=semantic-mismatch
+   Source stuck (ill-typed hand-built input) or out of fuel on either side: tags sem-stuck /
+   sem-oof, no verdict. *)
+Definition src_fuel : nat := N.iter 20000 S O.
+Definition tgt_fuel : nat := N.iter 400000 S O.
+
+Fixpoint remove_print (x : bool * Z) (l : prints) : option prints :=
+  match l with
+  | [] => None
+  | y :: r => if Bool.eqb (fst x) (fst y) && Z.eqb (snd x) (snd y) then Some r
+              else match remove_print x r with Some r' => Some (y :: r') | None => None end
+  end.
+Fixpoint prints_perm (a b : prints) : bool :=
+  match a with
+  | [] => match b with [] => true | _ => false end
+  | x :: a' => match remove_print x b with Some b' => prints_perm a' b' | None => false end
+  end.
+
+Definition sem_one (p : cprog) (q : fsprog) (a : list Z) : option string * string :=
+  let o1 := run_core src_fuel p a in
+  match snd o1 with
+  | OOutOfFuel => (None, "sem-oof")
+  | OStuck _ => (None, "sem-stuck")
+  | _ =>
+      let o2 := run_fs tgt_fuel q a in
+      match snd o2 with
+      | OOutOfFuel => (None, "sem-oof-target")
+      | _ =>
+          if obs_eqb o1 o2 then (None, "sem")
+          else
+            let what := " before=" ++ trunc 200 (show (s_obs o1)) ++ " after=" ++ trunc 200 (show (s_obs o2)) in
+            if outcome_eqb (snd o1) (snd o2) && prints_perm (fst o1) (fst o2)
+            then (Some ("class=order-of-effects" ++ what), "")
+            else (Some ("class=semantic-mismatch" ++ what), "")
+      end
+  end.
+
+Definition sem_hook (p : cprog) (q : fsprog) (args : sexp) : option string * string :=
+  match getL (getL getZ) args with
+  | None => (None, "sem-noargs")
+  | Some tuples =>
+      fold_left (fun acc a =>
+                   match acc with
+                   | (Some v, t) => (Some v, t)
+                   | (None, t) => match sem_one p q a with
+                                  | (Some v, _) => (Some v, t)
+                                  | (None, t') => (None, if String.eqb t "" then t' else if String.eqb t t' then t else t ++ " " ++ t')
+                                  end
+                   end) tuples (None, "")
+  end.
 
 Definition s_res {X} (f : X -> sexp) (r : res X) : sexp :=
   match r with Ok x => f x | Err m => L [A "PANIC"; Q m] end.
